@@ -334,15 +334,16 @@ def run_cobs_parts(pe, acc, case):
 
     def ob(k, s_):
         return pe.Obs([s_ * alpha.data('white', cf, alpha.rng('c01cp', k), 1.0 + 0.2 * k, 0.1)], ['A|r1'])
-    parts = {'obs': lambda k: ob(k, 1.0), 'small-obs': lambda k: ob(k, scale), 'number': lambda k: 2.0 - 0.5 * k, 'zero': lambda k: 0.0}
+    parts = {'obs': lambda k: ob(k, 1.0), 'small-obs': lambda k: ob(k, scale), 'number': lambda k: 2.0 - 0.5 * k, 'zero': lambda k: 0.0,
+             'small-number': lambda k: scale * (2.5 - 0.5 * k)}
 
     def ref_of(x):
         return compare.to_ref(x) if isinstance(x, pe.Obs) else ref.r_const(float(x))
     for (ra, ia), (rb, ib) in itertools.product(itertools.product(parts, repeat=2), repeat=2):
-        if all(k in ('number', 'zero') for k in (ra, ia)) or not any(k.endswith('obs') for k in (ra, ia, rb, ib)):
+        if all(k in ('number', 'zero', 'small-number') for k in (ra, ia)) or not any(k.endswith('obs') for k in (ra, ia, rb, ib)):
             continue           # the left operand is a CObs with at least one observable part
         a = pe.CObs(parts[ra](0), parts[ia](1))
-        if rb in ('number', 'zero') and ib in ('number', 'zero'):
+        if rb in ('number', 'zero', 'small-number') and ib in ('number', 'zero', 'small-number'):
             b = complex(parts[rb](2), parts[ib](3))
         else:
             b = pe.CObs(parts[rb](2), parts[ib](3))
